@@ -76,7 +76,7 @@ def gen_case(rng, tier):
 
 
 def gen_cases(rng, tier):
-    n = scale(tier, 64, 1200)
+    n = scale(tier, 64, 480)
     cases = [gen_case(rng, tier) for _ in range(n)]
     cases.append({"is_fd": True, "verbose": True, "sources": [{"arg": "empty.dat", "content": {"hex": ""}}, {"arg": "noext", "content": {"pat": "41", "len": 300}},
                                                               {"arg": "full.bin", "content": {"rand": 3, "len": FULL - 2 * 2040}}, {"arg": "next.txt", "content": {"pat": "42", "len": 2041}}]})
